@@ -223,8 +223,38 @@ func c06Sim(r *simcore.Run) {
 			if injected {
 				r.Count("op-rejected-injected", 1)
 			}
+			if kind == "delete" {
+				r.Fail("delete-rejected", src, "the deletion of %s was rejected: %v", src, err)
+				continue
+			}
 			if n, first := vDiff(after, before, w.probes); n != 0 {
 				r.Fail("rejected-change-altered-matching", kind, "%d probes changed after rejected %s of %s; first: %s", n, kind, src, first)
+			}
+			// whether a change can be applied must not depend on the history either: an instance freshly loaded with
+			// the other existing sets (same order) has to reject the same version of this set
+			if !injected && kind != "delete" && !r.Failed() {
+				others := &c06Model{sets: map[string][]rconfig.Rule{}}
+				for _, o := range model.order {
+					if o != src {
+						others.order = append(others.order, o)
+						others.sets[o] = model.sets[o]
+					}
+				}
+				if frepo, fproc, ferr := w.newInstance(); ferr == nil {
+					loaded := true
+					for _, o := range others.order {
+						if fproc.OnCreated(vRuleSet(o, others.sets[o])) != nil {
+							loaded = false
+						}
+					}
+					if loaded {
+						r.Count("rejection-compared-with-fresh-instance", 1)
+						if ferr := fproc.OnCreated(vRuleSet(src, next)); ferr == nil {
+							_ = frepo
+							r.Fail("change-rejected-only-because-of-history", strings.SplitN(kind, ":", 2)[0], "%s of %s was rejected (%v), but an instance freshly loaded with the other %d existing sets accepts this version", kind, src, err, len(others.order))
+						}
+					}
+				}
 			}
 			continue
 		}
